@@ -115,6 +115,34 @@ func metaOf(env *storerun.Env) (snap string, reset bool, timeline string) {
 	return
 }
 
+// gateReader hands out the first chunk of a snapshot and then holds the stream until the gate opens: the restore that reads
+// from it stays in its transfer window (before it takes the reload lock) for as long as the replay wants
+type gateReader struct {
+	data    []byte
+	off     int
+	gate    chan struct{}
+	entered chan struct{}
+	once    sync.Once
+}
+
+func (g *gateReader) Read(p []byte) (int, error) {
+	if g.off >= len(g.data) {
+		return 0, io.EOF
+	}
+	if g.off > 0 {
+		g.once.Do(func() { close(g.entered); <-g.gate })
+	}
+	n := copy(p[:min(len(p), 4096)], g.data[g.off:])
+	g.off += n
+	return n, nil
+}
+
+type dlWindow struct {
+	r     *gateReader
+	done  chan struct{}
+	panic any
+}
+
 func runDbLife(dir string, idx int, steps []dlStep, add func(step int, kind, what string)) {
 	env, err := storerun.NewEnv(dir, schema.Config{BossMode: "idxNull", TeamMode: "off"}, project.NewTokens(nil))
 	if err != nil {
@@ -134,6 +162,21 @@ func runDbLife(dir string, idx int, steps []dlStep, add func(step int, kind, wha
 	}
 	var snaps []snap
 	idCalls := 0
+	var win *dlWindow
+	closeWindow := func() bool {
+		close(win.r.gate)
+		select {
+		case <-win.done:
+		case <-time.After(20 * time.Second):
+			return false
+		}
+		return true
+	}
+	defer func() {
+		if win != nil {
+			closeWindow()
+		}
+	}()
 	tlName := func(n int) string {
 		if n == 0 {
 			return ""
@@ -169,9 +212,39 @@ func runDbLife(dir string, idx int, steps []dlStep, add func(step int, kind, wha
 			if as, ar, at := metaOf(env); as != bs || ar != br || at != bt {
 				add(si, "snapshot-changed-source-meta", fmt.Sprintf("meta before (%q,%v,%q) after (%q,%v,%q)", bs, br, bt, as, ar, at))
 			}
+		case "restoreBegin":
+			s := int(st.Last["s"].(float64)) - 1
+			w := &dlWindow{r: &gateReader{data: snaps[s].data, gate: make(chan struct{}), entered: make(chan struct{})}, done: make(chan struct{})}
+			go func() {
+				defer close(w.done)
+				defer func() { w.panic = recover() }()
+				env.Db.RestoreFromReader(w.r)
+			}()
+			select {
+			case <-w.r.entered:
+			case <-w.done:
+				add(si, "restore-window", fmt.Sprintf("RestoreFromReader returned without reading the stream to its end (panic: %v)", w.panic))
+				return
+			case <-time.After(10 * time.Second):
+				add(si, "harness", "the restore did not reach its transfer window")
+				return
+			}
+			win = w
 		case "restore":
 			s := int(st.Last["s"].(float64)) - 1
-			if (si+idx)%2 == 0 {
+			if win != nil {
+				w := win
+				ok := closeWindow()
+				win = nil
+				if !ok {
+					add(si, "restore-window", "the restore did not finish after its stream ended")
+					return
+				}
+				if w.panic != nil {
+					add(si, "restore-window", fmt.Sprintf("restore panicked: %v", w.panic))
+					return
+				}
+			} else if (si+idx)%2 == 0 {
 				env.Db.RestoreSnapshot(snaps[s].data)
 			} else {
 				env.Db.RestoreFromReader(bytes.NewReader(snaps[s].data))
@@ -325,6 +398,71 @@ func runGate(dir string) map[string]any {
 	out["transactions"] = len(results)
 	out["bad"] = bad
 	return out
+}
+
+// overlap: GetTimelineId is one atomic step of the specification; two overlapping requests after a restore must be explainable by
+// one of the two orders of that step: the id function runs once in total and both requests return the id the database holds.
+// The id function itself is the scheduling gate: the first invocation lingers until the second request has finished (which it
+// cannot before the first commits) or 150ms have passed.
+func runOverlap(dir string) []string {
+	var bad []string
+	for _, mode := range []boltz.TimelineMode{boltz.TimelineModeDefault, boltz.TimelineModeInitIfEmpty} {
+		func() {
+			env, err := storerun.NewEnv(dir, schema.Config{}, project.NewTokens(nil))
+			if err != nil {
+				bad = append(bad, "harness: "+err.Error())
+				return
+			}
+			defer env.Close()
+			_ = writeVersion(env, 1)
+			path := filepath.Join(dir, "overlap-snap.bolt")
+			_ = os.Remove(path)
+			actual, _, err := env.Db.Snapshot(path)
+			if err != nil {
+				bad = append(bad, "harness: "+err.Error())
+				return
+			}
+			data, _ := os.ReadFile(actual)
+			_ = os.Remove(actual)
+			env.Db.RestoreSnapshot(data)
+			var calls int64
+			inside := make(chan struct{})
+			secondDone := make(chan struct{})
+			idF := func() (string, error) {
+				n := atomic.AddInt64(&calls, 1)
+				if n == 1 {
+					close(inside)
+					select {
+					case <-secondDone:
+					case <-time.After(150 * time.Millisecond):
+					}
+				}
+				return fmt.Sprintf("ov-%d", n), nil
+			}
+			var a, b string
+			var ea, eb error
+			var wg sync.WaitGroup
+			wg.Add(2)
+			go func() { defer wg.Done(); a, ea = env.Db.GetTimelineId(mode, idF) }()
+			go func() {
+				defer wg.Done()
+				defer close(secondDone)
+				select {
+				case <-inside:
+				case <-time.After(5 * time.Second):
+				}
+				b, eb = env.Db.GetTimelineId(mode, idF)
+			}()
+			wg.Wait()
+			_, _, tl := metaOf(env)
+			if ea != nil || eb != nil {
+				bad = append(bad, fmt.Sprintf("overlapping GetTimelineId(%s) failed: %v %v", mode, ea, eb))
+			} else if n := atomic.LoadInt64(&calls); n != 1 || a != b || tl != a {
+				bad = append(bad, fmt.Sprintf("two overlapping GetTimelineId(%s) after a restore: id function ran %d times, requests returned %q and %q, the database holds %q (one atomic step each: one fresh id, both return it)", mode, n, a, b, tl))
+			}
+		}()
+	}
+	return bad
 }
 
 // stress: readers and writers run against repeated restores; every transaction reads its view twice and must see one
@@ -513,6 +651,7 @@ func dblifeMain(args []string) error {
 		}
 	}
 	rep.Gate = runGate(*scratch)
+	rep.Gate["overlap_bad"] = runOverlap(*scratch)
 	rep.Stress = runStress(*scratch, time.Duration(*stressMs)*time.Millisecond)
 	out, _ := json.Marshal(rep)
 	fmt.Println(string(out))
